@@ -70,3 +70,84 @@ def do_call(pipeline, out: str, kw_pairs: list[list], mode: str) -> list[dict]:
     else:
         events.append(ev(e="return", val=to_json(r)))
     return events
+
+
+# ---- additions for C09 (cache histories on twin pipelines); nothing above is changed ---------------------------
+BLANK_FUNC = {"name": "", "params": [], "outputs": [], "defaults": [], "bound": [], "has_ms": False,
+              "ms": {"ins": [], "outs": []}, "internal": [], "cache": False}
+BLANK_OBS = {"keys": [], "size": 0, "cap": 0}
+BLANK_MUT = {"kind": "", "f": "", "p": "", "v": {"f": "", "a": []}, "func": BLANK_FUNC}
+
+
+def with_cache_fields(e: dict) -> dict:
+    """Event of `ev`/`do_call` + the always-present C09 fields obs (cache observation) and mut (mutation)."""
+    e.setdefault("obs", BLANK_OBS)
+    e.setdefault("mut", BLANK_MUT)
+    return e
+
+
+def observe_cache(pipeline) -> dict:
+    """What the PUBLIC mapping `pipeline.cache.cache` holds right now, as documented keys
+    (output_name, ((arg, value), ...)) -> {"o": [names], "args": [[arg, value-json], ...]}; plus the number of
+    entries and the capacity (0 = unbounded) of the container that mapping belongs to.  Keys of any other shape
+    (e.g. written by Pipeline.map) are not reported."""
+    cache = getattr(pipeline, "cache", None)
+    if cache is None:
+        return {"keys": [], "size": 0, "cap": 0}
+    try:
+        mapping = cache.cache
+    except AttributeError:          # DiskCache(with_lru_cache=False) has no mapping
+        return {"keys": [], "size": 0, "cap": 0}
+    keys = []
+    for k in list(mapping):
+        try:
+            oname, items = k
+            names = [oname] if isinstance(oname, str) else list(oname)
+            if not all(isinstance(n, str) for n in names) or not isinstance(items, tuple):
+                continue
+            args = []
+            for it in items:
+                a, v = it
+                if not isinstance(a, str):
+                    raise TypeError
+                args.append([a, to_json(v)])
+            keys.append({"o": names, "args": args})
+        except (TypeError, ValueError):
+            continue
+    front = getattr(cache, "lru_cache", cache)       # DiskCache: the mapping is its in-memory LRU front
+    cap = getattr(front, "max_size", None)
+    return {"keys": keys, "size": len(front), "cap": int(cap) if cap else 0}
+
+
+def func_py_from_tla(f: dict) -> dict:
+    return tla_desc_to_py({"funcs": [f]})["funcs"][0]
+
+
+def output_name_of(fd: dict):
+    outs = fd["outputs"]
+    return outs[0] if len(outs) == 1 else tuple(outs)
+
+
+def do_mutation(pipeline, mut: dict, outputs_of: dict[str, list[str]]) -> None:
+    """Apply one mutation event [kind, f, p, v, func] through the public API.
+    outputs_of: function name -> its output names (never changed by the mutations used here)."""
+    kind = mut["kind"]
+    with contextlib.redirect_stdout(io.StringIO()):
+        if kind == "update_defaults":
+            pipeline.update_defaults({mut["p"]: from_json(mut["v"])})
+        elif kind == "update_bound":
+            pipeline[output_name_of({"outputs": outputs_of[mut["f"]]})].update_bound({mut["p"]: from_json(mut["v"])})
+        elif kind == "replace":
+            pipeline.replace(build.make_pipefunc(func_py_from_tla(mut["func"])))
+        else:
+            raise ValueError(kind)
+
+
+def func_state(pipeline, name: str, outputs: list[str], cache: bool) -> dict:
+    """Current description record (TLA+/JSON form) of one function of a live pipeline, read from its public
+    attributes (parameters, defaults, bound)."""
+    pf = pipeline[output_name_of({"outputs": outputs})]
+    return {"name": name, "params": list(pf.parameters), "outputs": list(outputs),
+            "defaults": [[p, to_json(v)] for p, v in pf.defaults.items()],
+            "bound": [[p, to_json(v)] for p, v in pf.bound.items()],
+            "has_ms": False, "ms": {"ins": [], "outs": []}, "internal": [], "cache": bool(cache)}
